@@ -58,7 +58,7 @@ CANARY = [
     "''' + __import__('vkit_canary').hit() + '''", "\n__import__('vkit_canary').hit()\n", "');__import__('vkit_canary').hit();('",
     "{0.__class__}", "{data}", "{x!r}", "%(x)s", "${x}", "$x", "\\N{BULLET}", "\\x41", "\\", "\\\\", "\\'", '\\"',
 ]
-HOSTILE_KEYS = CANARY + ["'", '"', "'''", '"""', "{", "}", "{}", "{0}", "}{", "#", "# comment", "\n", "\r\n", " ", " ",
+HOSTILE_KEYS = CANARY + ["US$$", "$value", "${value}", "cost_in_$", "$", "$$", "${", "$key", "${key}", "$data", "%", "%%", "{value}","'", '"', "'''", '"""', "{", "}", "{}", "{0}", "}{", "#", "# comment", "\n", "\r\n", " ", " ",
                          "\x00", "\t", " ", "", "a b", "a.b", "a[0]", "0", "-1", "None", "True", "...", "Ellipsis", "data", "key",
                          "é", "日本", "\ud800", "a" * 200, ";", ":", ",", "()", "[]", "lambda: 0", "f'{1}'", "b'x'", "\\u0041"]
 CLASS_NAMES = ["M", "My Class", "a'b", 'x"y', "[T]", "A²", "½", "class", "", "1abc", "\n", "a.b", "lambda: 0", "data", "coercer",
@@ -114,6 +114,7 @@ def st_case(draw):
             f["path"] = [draw(st.sampled_from(HOSTILE_KEYS)), draw(st.one_of(st.sampled_from(HOSTILE_KEYS), st.text(max_size=4)))]
         fields.append(f)
     case = {"gen": gen, "kind": kind, "fields": fields, "cls_name": draw(st.sampled_from(CLASS_NAMES)),
+            "omit_default": draw(st.booleans()),
             "debug": draw(st.integers(0, 2)), "style": draw(st.sampled_from([None, None, "CAMEL", "UPPER_KEBAB"]))}
     if gen == "impl_converter":
         case["func_name"] = draw(st.sampled_from(FUNC_NAMES))
@@ -215,7 +216,12 @@ def check_case(ctx: runner.Ctx, case):  # noqa: C901, PLR0912, PLR0915
         return
     vkit_canary.HITS.clear()
     mapping = {f["id"]: (f["key"] if "key" in f else tuple(f["path"])) for f in fields if "key" in f or "path" in f}
-    recipe = [name_mapping(cls, map=mapping)] if mapping else []
+    nm_kwargs = {}
+    if mapping:
+        nm_kwargs["map"] = mapping
+    if case.get("omit_default"):
+        nm_kwargs["omit_default"] = True   # sieved fields take another path through the dumper generator
+    recipe = [name_mapping(cls, **nm_kwargs)] if nm_kwargs else []
     collide = [f["id"] for f in fields if f["id"] in INTERNAL + PREFIXED + BUILTINS]
     meta = any(("key" in f and f["key"] in HOSTILE_KEYS) or "path" in f for f in fields)
     ctx.case([case], bool(collide) or meta,
